@@ -73,7 +73,7 @@ def gen_plan(r, tier, index):
             mut = []
             if r.random() < 0.5:
                 for _ in range(r.choice([1, 2, 4])):
-                    mut.append({"op": r.choice(["scale", "translate", "translate2", "rotate", "write", "write_elem", "dump", "serialise"]),
+                    mut.append({"op": r.choice(["scale", "translate", "translate2", "rotate", "invert", "center_atom", "write", "write_elem", "write_charge", "dump", "serialise"]),
                                 "a": r.randrange(1 << 16)})
             phases.append({"type": "iter", "tasks": tasks, "mutator": mut, "sched_seed": r.randrange(1 << 30),
                            "strategy": r.choice(["random", "random", "round_robin", "sticky"])})
@@ -471,6 +471,29 @@ def _mutate(mo, st, res, viol, na, ser, deser, msgpack):
         R = np.array([[0.0, -1.0, 0.0], [1.0, 0.0, 0.0], [0.0, 0.0, 1.0]])
         ens.rotate(R)
         mc[:] = mc @ R
+    elif op == "invert":
+        ens.invert()
+        mc *= -1.0
+    elif op == "center_atom":
+        if nc == 0 or na == 0:
+            return
+        j = a % na
+        ens.center_at_atom(ens.atoms[j])
+        mc -= mc[:, j:j + 1, :].copy()
+    elif op == "write_charge":
+        # partial charges are a view of the ensemble's row too
+        if nc == 0 or na == 0:
+            return
+        i = a % nc
+        q0 = np.array(ens.atomic_charges, copy=True)
+        new = np.round(np.linspace(-0.5, 0.5, na) + (a % 3) * 0.125, 4)
+        ens[i].atomic_charges = new
+        q0[i] = new
+        if not np.allclose(ens.atomic_charges, q0):
+            viol("charge-write-not-confined-to-its-row", f"writing partial charges through ens[{i}] left the ensemble's charges at {ens.atomic_charges.tolist()} instead of {q0.tolist()}")
+        if not np.allclose(ens[i].atomic_charges, new):
+            viol("charge-write-not-visible", f"a second ens[{i}] view does not show the partial charges just written")
+        res.stats["probe:write_through_conformer"] += 1
     elif op in ("write", "write_elem"):
         if nc == 0 or na == 0:
             return
